@@ -18,8 +18,17 @@ import printer
 import vlib
 
 BOUNDS = {
-    "quick": {"NTicks": 6, "MaxEdits": 2, "MaxVoices": 3, "InitVoices": 2, "EditAt": "{1, 3}", "Live": "FALSE", "Frames": "{1}"},
-    "thorough": {"NTicks": 8, "MaxEdits": 2, "MaxVoices": 3, "InitVoices": 2, "EditAt": "{0, 1, 2, 3, 5}", "Live": "FALSE", "Frames": "{1}"},
+    "quick": {"NTicks": 6, "MaxEdits": 2, "MaxVoices": 3, "InitVoices": 2, "EditAt": "{1, 3}", "Live": "FALSE", "Frames": "{1}",
+              "ShapeSet": '{"counter", "lagv", "dlv", "nestv", "paccv"}'},
+    "thorough": {"NTicks": 8, "MaxEdits": 2, "MaxVoices": 3, "InitVoices": 2, "EditAt": "{0, 1, 2, 3, 5}", "Live": "FALSE", "Frames": "{1}",
+                 "ShapeSet": '{"counter", "lagv", "dlv", "nestv", "paccv"}'},
+}
+# edits inside a voice (a stateful site inserted into / removed from the operand of an inline delay over a stateful call)
+INNER = {
+    "quick": {"NTicks": 8, "MaxEdits": 2, "MaxVoices": 3, "InitVoices": 2, "EditAt": "{3, 5}", "Live": "FALSE", "Frames": "{1}",
+              "ShapeSet": '{"idl", "lagv", "dlv"}'},
+    "thorough": {"NTicks": 10, "MaxEdits": 3, "MaxVoices": 3, "InitVoices": 2, "EditAt": "{1, 3, 6}", "Live": "FALSE", "Frames": "{1}",
+                 "ShapeSet": '{"idl", "nestv", "paccv", "lagv"}'},
 }
 BROKEN = "fn dsp(){\n  (1 + , 2\n}\n"
 
@@ -27,9 +36,9 @@ BROKEN = "fn dsp(){\n  (1 + , 2\n}\n"
 # the invariants on all of them; `replay` histories are driven through the real loop (see live_layer)
 LIVE_BOUNDS = {
     "quick": {"NTicks": 4, "MaxEdits": 2, "MaxVoices": 3, "InitVoices": 2, "EditAt": "{0, 1, 2}", "Live": "TRUE", "Frames": "{1, 2}",
-              "replay": 700},
+              "ShapeSet": '{"counter", "lagv", "dlv", "nestv", "paccv"}', "replay": 700},
     "thorough": {"NTicks": 5, "MaxEdits": 2, "MaxVoices": 3, "InitVoices": 2, "EditAt": "{0, 1, 2, 3}", "Live": "TRUE",
-                 "Frames": "{1, 2}", "replay": 6000},
+                 "Frames": "{1, 2}", "ShapeSet": '{"counter", "lagv", "dlv", "nestv", "paccv"}', "replay": 6000},
 }
 
 
@@ -106,14 +115,14 @@ def live_layer(chk, tier):
     live_model(chk, tier)
     b = dict(LIVE_BOUNDS[tier])
     nrep = b.pop("replay")
-    path = os.path.join(vlib.TLA_DIR, "EditSwap_liverun.cfg")
+    path = os.path.join(vlib.TLA_DIR, "EditSwap_live_run.cfg")
     with open(path, "w") as f:
         f.write("SPECIFICATION Spec\nCONSTANTS\n")
         for k, v in b.items():
             f.write(f"  {k} = {v}\n")
         f.write("INVARIANT CellsWellFormed\nINVARIANT QueueEndsWithFile\nINVARIANT NothingWaitingMeansFileRuns\n"
                 "INVARIANT Emit\nCHECK_DEADLOCK FALSE\n")
-    r = vlib.run_tlc("EditSwap", "EditSwap_liverun", workers=12, timeout=3000)
+    r = vlib.run_tlc("EditSwap", "EditSwap_live_run", workers=12, timeout=3000)
     chk.tlc(r, "EditSwap(Live)")
     if r.violation:
         chk.violation(f"model (live loop): {r.violation}", {"tlc": vlib.tlc_error_trace(r.stdout)}, key="model-live")
@@ -209,17 +218,25 @@ def live_layer(chk, tier):
 def run(tier):
     chk = vlib.Check("C07", "model_checking", tier)
     vlib.build_harness()
-    path = os.path.join(vlib.TLA_DIR, "EditSwap_run.cfg")
-    with open(path, "w") as f:
-        f.write("SPECIFICATION Spec\nCONSTANTS\n")
-        for k, v in BOUNDS[tier].items():
-            f.write(f"  {k} = {v}\n")
-        f.write("INVARIANT CellsWellFormed\nINVARIANT Emit\nCHECK_DEADLOCK FALSE\n")
-    r = vlib.run_tlc("EditSwap", "EditSwap_run", workers=12, timeout=3000)
-    chk.tlc(r, "EditSwap")
-    if r.violation:
-        chk.violation(f"model: {r.violation}", {"tlc": vlib.tlc_error_trace(r.stdout)}, key="model")
-    reps = sorted(r.tagged["REPLAY"], key=lambda x: json.dumps(x, sort_keys=True))
+    reps = []
+    for label, bounds in (("EditSwap", BOUNDS[tier]), ("EditSwap[edits inside a voice]", INNER[tier])):
+        path = os.path.join(vlib.TLA_DIR, "EditSwap_run.cfg")
+        with open(path, "w") as f:
+            f.write("SPECIFICATION Spec\nCONSTANTS\n")
+            for k, v in bounds.items():
+                f.write(f"  {k} = {v}\n")
+            f.write("INVARIANT CellsWellFormed\nINVARIANT Emit\nCHECK_DEADLOCK FALSE\n")
+        r = vlib.run_tlc("EditSwap", "EditSwap_run", workers=12, timeout=3000)
+        chk.tlc(r, label)
+        if r.violation:
+            chk.violation(f"model: {r.violation}", {"tlc": vlib.tlc_error_trace(r.stdout)}, key="model")
+        part = r.tagged["REPLAY"]
+        if label != "EditSwap":
+            # of the second job, the histories that do edit inside a voice (the others repeat the first job's)
+            part = [x for x in part if any(h["op"].startswith("inner_") for h in x["hist"])]
+            chk.cov["histories_with_edits_inside_a_voice"] = len(part)
+        reps += part
+    reps = sorted(reps, key=lambda x: json.dumps(x, sort_keys=True))
     reqs, meta = [], []
     for i, rep in enumerate(reps):
         hist = rep["hist"]
@@ -258,7 +275,8 @@ def run(tier):
                               f"{[s.get('ok') for s in sw]}) instead of {exp}\n--- initial program\n{req['src']}--- versions\n"
                               + "\n".join(srcs)[:1500], dict(case, backend=be), key=key)
         distinct.add(key)
-    nlive = live_layer(chk, tier)
+    # development aid (never set by a registered command): VERIF_DEV_LAYERS=main skips the live-coding layer
+    nlive = 0 if os.environ.get("VERIF_DEV_LAYERS") == "main" else live_layer(chk, tier)
     chk.cov["histories"] = len(reps)
     chk.cov["evaluations"] = len(reps) * 2 + nlive
     chk.cov["distinct_nontrivial"] = len(distinct)
